@@ -51,6 +51,9 @@ func HEVCNalHeader(nalType, layerID, tidPlus1 byte) []byte {
 // after the two header bytes gets emulation prevention.
 func hevcFinishNal(w *BitWriter) []byte {
 	raw := w.Out()
+	if len(raw) < 2 { // only with a Hostile truncation inside the NAL header
+		return raw
+	}
 	out := append([]byte{}, raw[:2]...)
 	return append(out, Escape(raw[2:])...)
 }
@@ -551,9 +554,14 @@ func hevcWriteSPSSccExt(w *BitWriter, e *hevc.SPSSccExtension, chromaFormatIDC, 
 
 // HEVCWriteSPS serialises seq_parameter_set_rbsp() into a complete NAL unit (nuh_layer_id 0).
 func HEVCWriteSPS(t *HEVCSPSTree) ([]byte, HEVCSPSInfo) {
+	return HEVCWriteSPSH(t, nil)
+}
+
+// HEVCWriteSPSH is HEVCWriteSPS with a hostile-value hook on the bit writer (nil: none); see Hostile.
+func HEVCWriteSPSH(t *HEVCSPSTree, hz *Hostile) ([]byte, HEVCSPSInfo) {
 	s := &t.SPS
 	info := HEVCSPSInfo{ScalingListBit: -1, VUIBit: -1}
-	w := NewBitWriter()
+	w := NewHostileBitWriter(hz)
 	tid := t.TemporalIDPlus1
 	if tid == 0 {
 		tid = 1
@@ -745,9 +753,14 @@ func hevcWritePPSSccExt(w *BitWriter, e *hevc.SccExtension) {
 
 // HEVCWritePPS serialises pic_parameter_set_rbsp() into a complete NAL unit.
 func HEVCWritePPS(t *HEVCPPSTree) ([]byte, HEVCPPSInfo) {
+	return HEVCWritePPSH(t, nil)
+}
+
+// HEVCWritePPSH is HEVCWritePPS with a hostile-value hook on the bit writer (nil: none); see Hostile.
+func HEVCWritePPSH(t *HEVCPPSTree, hz *Hostile) ([]byte, HEVCPPSInfo) {
 	p := &t.PPS
 	info := HEVCPPSInfo{ScalingListBit: -1}
-	w := NewBitWriter()
+	w := NewHostileBitWriter(hz)
 	tid := t.TemporalIDPlus1
 	if tid == 0 {
 		tid = 1
@@ -858,7 +871,12 @@ type HEVCVPSTree struct {
 // HEVCWriteVPS serialises a VPS with vps_num_layer_sets_minus1 = 0, vps_num_hrd_parameters = 0 and
 // vps_extension_flag = 0.
 func HEVCWriteVPS(t *HEVCVPSTree) []byte {
-	w := NewBitWriter()
+	return HEVCWriteVPSH(t, nil)
+}
+
+// HEVCWriteVPSH is HEVCWriteVPS with a hostile-value hook on the bit writer (nil: none); see Hostile.
+func HEVCWriteVPSH(t *HEVCVPSTree, hz *Hostile) []byte {
+	w := NewHostileBitWriter(hz)
 	w.Bytes(HEVCNalHeader(HEVCNalVPS, 0, 1))
 	w.U(uint64(t.VpsID), 4)
 	w.Flag(t.BaseLayerInternalFlag)
@@ -993,11 +1011,16 @@ func hevcWritePredWeightTable(w *BitWriter, sh *hevc.SliceHeader, x *HEVCSliceEx
 // HEVCWriteSlice serialises a slice segment NAL unit. spsT and pps are the ACTIVE parameter sets (the PPS
 // with id slice_pic_parameter_set_id and the SPS with that PPS's pps_seq_parameter_set_id).
 func HEVCWriteSlice(t *HEVCSliceTree, spsT *HEVCSPSTree, pps *hevc.PPS) ([]byte, HEVCSliceDerived) {
+	return HEVCWriteSliceH(t, spsT, pps, nil)
+}
+
+// HEVCWriteSliceH is HEVCWriteSlice with a hostile-value hook on the bit writer (nil: none); see Hostile.
+func HEVCWriteSliceH(t *HEVCSliceTree, spsT *HEVCSPSTree, pps *hevc.PPS, hz *Hostile) ([]byte, HEVCSliceDerived) {
 	sh := &t.SH
 	x := &t.Extra
 	sps := &spsT.SPS
 	var d HEVCSliceDerived
-	w := NewBitWriter()
+	w := NewHostileBitWriter(hz)
 	nalType := int(t.NalType)
 	w.Bytes(HEVCNalHeader(t.NalType, 0, t.TemporalIDPlus1))
 	w.Flag(sh.FirstSliceSegmentInPicFlag)
